@@ -530,9 +530,11 @@ def spec_term(case, out):
     b = qlist(v) if isinstance(v, list) else q(v)
     return f'(Sp{sk} {a} {b})'
 
+CHECK_FN = 'vle_check_flows'     # C03 compares the material; C04 reuses this harness with the full comparison
+
 def coq_vle(case, out):
     raised = 'None' if out['raised'] is None else f'(Some {out["raised"]})'
-    return (f'(vle_check {cfg_term()} {orc_term(case, out)} {spec_term(case, out)} {st_term(out["init"])} '
+    return (f'({CHECK_FN} {cfg_term()} {orc_term(case, out)} {spec_term(case, out)} {st_term(out["init"])} '
             f'{st_term(out["final"])} {raised} {cnat(out["ticks"])})')
 
 def coq_lle(case, out):
